@@ -492,8 +492,25 @@ EXTRA = ['CC(=O)[O-].[NH4+]', 'C[NH3+].[Cl-]', '[Na+].CC(=O)[O-]', 'CC(=O)O.CN',
          '[H]c1ccccc1', '[H]C1=CC=CC=C1', 'C[H]C', '[H]', '[H+]', '[H-]', '[Li][H]', '[H]B1[H]B([H])[H]1', 'CP(C)(C)(C)[H]',
          '[H]S(=O)(=O)C', '[H]N=O', '[H][Fe]', 'C=[N+]=[N-]', 'CN(=O)=O', 'C[N+](=O)[O-]', 'CS(=O)C', 'C[S+](C)[O-]',
          'O=C1NC=CC=C1', 'Oc1ccccn1', 'CC(O)=CC', 'CC(=O)CC', 'NC(N)=N', 'OC1=NC(O)=NC=C1', 'C1=CC=C[CH-]1.[Fe+2].C1=CC=C[CH-]1',
+         'c1cnc[nH]1', 'c1ccc2[nH]cnc2c1', 'c1cn[nH]c1', 'c1nc[nH]n1', 'O=c1[nH]cnc2nc[nH]c12', 'Cc1cc(C)n[nH]1', 'c1ccc2[nH]nnc2c1',
+         'Cc1ncc[nH]1', 'c1ccc(cc1)-c1cnc[nH]1', 'CC(=O)Cc1ccccc1', 'OC1=CC=CC=N1', 'O=C1NC(=O)C=C1', 'N#Cc1ccc2[nH]c(C)c(C)c2c1',
          '[Fe]C#N', 'N#C[Cu]', 'O=C=N[Pd]', 'C[N+](C)(C)[Pt]', '[CH2-][N+]#N', '[N-]=[N+]=NC', 'CN=N#N', '[O-][n+]1ccccc1',
          'C1=CC=CC=[N+]1[O-]', 'CC[S](=O)(=O)[O-].[K+]', 'OP(O)(O)=O', '[O-]P([O-])([O-])=O.[Na+].[Na+].[Na+]']
+
+
+def normalised(m):
+    """aromatic input as the library wants it: `smiles()` leaves the hydrogen counts of aromatic hetero atoms undefined (and
+    ring-ring bonds aromatic) until `kekule()`; kekule + thiele (without tautomer fixing) gives the same drawing with every
+    count set (DESIGN §7 #18). Non-aromatic molecules are returned unchanged."""
+    if not any(int(b) == 4 for _, _, b in m.bonds()):
+        return m
+    c = m.copy()
+    try:
+        c.kekule()
+        c.thiele(fix_tautomers=False)
+        return c
+    except Exception:
+        return m
 
 
 def molecule_pool(ctx):
@@ -505,7 +522,7 @@ def molecule_pool(ctx):
         for s in (raw, res):
             m = molgen.parse(s)
             if m is not None:
-                pool.append((f'doc:{s}', m, [], None))
+                pool.append((f'doc:{s}', normalised(m), [], None))
     inst, missing = pattern_instances(ctx, 2 if ctx.quick else 6)
     _state['missing_instances'] = missing
     pool += inst
@@ -515,12 +532,12 @@ def molecule_pool(ctx):
         pool += g
         ctx.notes.append(f'rule alternatives grid: {len(g)} molecules ({_state.get("grid_capped", 0)} rules capped at 40 combinations)')
     for s, m in molgen.handmade():
-        pool.append((f'hand:{s}', m, [], None))
+        pool.append((f'hand:{s}', normalised(m), [], None))
     for s in EXTRA:
         m = molgen.parse(s)
         if m is not None:
-            pool.append((f'extra:{s}', m, [], None))
-    corp = molgen.corpus(rng, 80 if ctx.quick else 500)
+            pool.append((f'extra:{s}', normalised(m), [], None))
+    corp = [(lab, normalised(m)) for lab, m in molgen.corpus(rng, 80 if ctx.quick else 500)]
     for lab, m in corp:
         pool.append((lab, m, [], None))
     # corpus molecules (Kekule form) decorated with instantiated groups
@@ -696,6 +713,7 @@ def correspond(ctx):
     relational(ctx, pool, programs)
     ctx.cov['programs'] = len(programs)
     ctx.cov['distribution']['pauses(sssr dropped, resumed)'] = _state.get('pauses', 0)
+    ctx.cov['distribution']['R:filtered(recorded gap: tautomer chosen by match order)'] = _state.get('gap_tautomer_choice', 0)
     ctx.notes.append(f'pool {len(pool)} molecules; correspondence+relational {time.time() - t0:.1f}s')
 
 
@@ -1142,11 +1160,31 @@ def oracle(ints, op, ft, rng=None, renumber=True):
             a = m0s.copy()
             apply_op(op, a, ft)
             if not same_structure(a, m2):
-                _state['last_renumber'] = pair
-                fails.append(('renumbering', f'{canon(a)} vs {canon(m2)} (mapping {mapping})'))
+                if ft and op in ('standardize', 'canonicalize') and tautomer_choice_made(pair):
+                    # recorded gap of the property: with tautomer fixing ON the tautomer of a hetero-arene is chosen by match
+                    # order (dihydroxypyrimidines, quinoxalinediols ...): filtered out of the domain, counted
+                    _state['gap_tautomer_choice'] = _state.get('gap_tautomer_choice', 0) + 1
+                else:
+                    _state['last_renumber'] = pair
+                    fails.append(('renumbering', f'{canon(a)} vs {canon(m2)} (mapping {mapping})'))
         except Exception as e:
             fails.append(('renumbering', f'renumbered input raised {type(e).__name__}: {e}'))
     return fails
+
+
+def tautomer_choice_made(pair):
+    """did tautomer fixing choose a tautomer on either numbering? (a tautomer rule of the tables fired, or thiele reported
+    `aromatic tautomer found`)"""
+    taut = {str(e[0]) for tab in real_tables().values() for e in tab if e[4]}
+    for ints in pair:
+        m, _ = wire.ints_to_mol(ints, calc=True)
+        try:
+            log = m.canonicalize(fix_tautomers=True, logging=True)
+        except Exception:
+            return False
+        if any(t == 'aromatic tautomer found' or t in taut for _m, _r, t in log):
+            return True
+    return False
 
 
 def signature(ints, op, check, ft=False):
@@ -1385,7 +1423,7 @@ def relational(ctx, pool, programs):
         valid = is_valid(mol)
 
         for op in OPS:
-            if op == 'tautomers' and (len(mol) > 40 or (ctx.quick and done % 3)):
+            if op == 'tautomers' and (len(mol) > 40 or (ctx.quick and done % 2 and not lab.startswith(('extra:', 'hand:')))):
                 continue
             fts = [False] + ([True] if corpus and op in ('standardize', 'canonicalize') else [])
             for ft in fts:
